@@ -2,7 +2,7 @@
    Model: Model/GF8.v (GF(2^8) mod 0x11D; klauspost/reedsolomon with WithPAR1Matrix: Encode, Reconstruct,
    Verify) and Model/Par1.v (Create, the decoder, Verify, Repair) over Model/FS.v. *)
 From Gopar Require Import Model.Base Model.Matrix Model.RS16 Model.GF8 Model.CRC Model.GoPath Model.FS Model.Par1
-     Proofs.LinAlg Proofs.GoPathFacts Proofs.Par2Facts Proofs.GF8Facts Proofs.Par1Facts Proofs.Par1Clean Proofs.Par1RoundTrip Proofs.Par1Volumes Proofs.Par1RoundTrip2.
+     Proofs.LinAlg Proofs.GoPathFacts Proofs.Par2Facts Proofs.GF8Facts Proofs.Par1Facts Proofs.Par1Clean Proofs.Par1RoundTrip Proofs.Par1Volumes Proofs.Par1RoundTrip2 Proofs.Par1RoundTrip3.
 Open Scope N_scope.
 
 (* Reconstruct, for EVERY file count, volume count, content and EVERY subset of surviving data files and
@@ -167,3 +167,34 @@ Theorem C04_create_lose_files_and_volumes : forall md5, (forall x, length (md5 x
   \/ (r = Err ESingular /\ io_fs st3 = fs_remove gone (io_fs st') /\ rp = []).
 Proof. exact par1_create_lose_files_and_volumes. Qed.
 Print Assumptions C04_create_lose_files_and_volumes.
+
+(* ... AND WITH DAMAGED VOLUMES: each volume of `lostv` is either gone or holds ARBITRARY bytes that the volume
+   reader rejects (garbage, truncated, bit-flipped: the control hash fails); the state before Repair is any fs2
+   that otherwise is the created state minus the lost files.  Same conclusion: every file byte for byte, or the
+   singular error with nothing written *)
+Theorem C04_create_damage_files_and_volumes : forall md5, (forall x, length (md5 x) = 16%nat) ->
+  forall parPath files nvol fs st' lost lostv fs2 dbl r rp st3,
+  par1_create md5 parPath files nvol (io_init fs []) = (Ok tt, st') ->
+  let nv := if (nvol <=? 0)%Z then 3%nat else Z.to_nat nvol in
+  Forall (fun f => input_name_ok (base f)) files ->
+  Forall (fun f => join2 (dir parPath) (base f) = f) files ->
+  (forall f d, In f files -> fs_lookup fs f = Some d -> N.of_nat (length d) < 2^64 /\ wf_bytes d) ->
+  Forall (fun f => f <> parPath /\ forall k, (1 <= k <= nv)%nat -> f <> volume_path parPath (N.of_nat k)) files ->
+  (forall k, (nv < k <= Nat.min (256 - length files) 99)%nat ->
+     fs_lookup fs (volume_path parPath (N.of_nat k)) = None /\ is_dir fs (volume_path parPath (N.of_nat k)) = false) ->
+  incl lost files ->
+  NoDup lostv -> (forall k, In k lostv -> (1 <= k <= Nat.min nv 99)%nat) ->
+  (length lost <= Nat.min nv 99 - length lostv)%nat ->
+  (forall f, In f lost -> is_dir (io_fs st') f = false) ->
+  (forall p, ~ In p (map (fun k => volume_path parPath (N.of_nat k)) lostv) ->
+     fs_lookup fs2 p = fs_lookup (fs_remove lost (io_fs st')) p /\ is_dir fs2 p = is_dir (fs_remove lost (io_fs st')) p) ->
+  (forall k, In k lostv ->
+     (fs_lookup fs2 (volume_path parPath (N.of_nat k)) = None /\ is_dir fs2 (volume_path parPath (N.of_nat k)) = false) \/
+     (exists b x, fs_lookup fs2 (volume_path parPath (N.of_nat k)) = Some b /\ read_volume md5 b = Err x)) ->
+  par1_repair md5 parPath dbl (io_init fs2 []) = ((r, rp), st3) ->
+  (r = Ok tt /\
+   (forall f d, In f files -> fs_lookup fs f = Some d -> fs_lookup (io_fs st3) f = Some d) /\
+   rp = filter (fun f => existsb (str_eqb f) lost) files)
+  \/ (r = Err ESingular /\ io_fs st3 = fs2 /\ rp = []).
+Proof. exact par1_create_damage_files_and_volumes. Qed.
+Print Assumptions C04_create_damage_files_and_volumes.
